@@ -294,7 +294,70 @@ func AnyWrap(r *prng.R) string {
 		fmt.Fprintf(&b, "print (%s%s == %s%s)\n", v, idx, v, idx)
 		fmt.Fprintf(&b, "for e := range %s\n    print (typeof e) e\nend\n", v)
 	}
-	switch r.Intn(7) {
+	switch r.Intn(9) {
+	case 7, 8:
+		// a value held in an any is asserted to a type - the right one or another one
+		// (today: an Evy panic) - and then the value is written through one name and read
+		// through the other: whatever the assertion lets through, every name must still
+		// see values of its own static type
+		type held struct{ ty, decl, empty, full, elem, elemTy string }
+		hs := []held{
+			{"[]num", "h:[]num", "", "h = [1 2]", "5", "num"},
+			{"[]string", "h:[]string", "", "h = [\"p\" \"q\"]", "\"z\"", "string"},
+			{"[]bool", "h:[]bool", "", "h = [true]", "false", "bool"},
+			{"{}num", "h:{}num", "", "h = {a:1}", "5", "num"},
+			{"{}string", "h:{}string", "", "h = {a:\"p\"}", "\"z\"", "string"},
+			{"{}bool", "h:{}bool", "", "h = {a:true}", "false", "bool"},
+			{"[]any", "h:[]any", "", "h = [1 \"s\"]", "av", "any"},
+			{"{}any", "h:{}any", "", "h = {a:1 b:\"s\"}", "av", "any"},
+			{"[][]num", "h:[][]num", "", "h = [[1]]", "[2]", "[]num"},
+			{"{}[]string", "h:{}[]string", "", "h = {a:[\"p\"]}", "[\"z\"]", "[]string"},
+		}
+		src := hs[r.Intn(len(hs))]
+		dst := hs[r.Intn(len(hs))]
+		if r.Chance(0.15) {
+			dst = src
+		}
+		b.WriteString("av:any\nav = true\nprint av\n" + src.decl + "\n")
+		if r.Chance(0.4) {
+			b.WriteString(src.full + "\n")
+		}
+		b.WriteString("a:any\na = h\n")
+		if r.Chance(0.3) {
+			b.WriteString("a2:any\na2 = []\na3:any\na3 = {}\nprint (typeof a2) (typeof a3) a2 a3\n")
+			if dst.ty[0] == '[' {
+				b.WriteString("a = a2\n")
+			} else {
+				b.WriteString("a = a3\n")
+			}
+		}
+		fmt.Fprintf(&b, "print (typeof a) a\nt := a.(%s)\nprint (typeof t) t\n", dst.ty)
+		// write through the asserted name
+		if dst.ty[0] == '{' {
+			fmt.Fprintf(&b, "t.k = %s\nt[\"k2\"] = %s\n", dst.elem, dst.elem)
+		} else {
+			fmt.Fprintf(&b, "t = t + [%s]\nif (len t) > 0\n    t[0] = %s\nend\n", dst.elem, dst.elem)
+		}
+		// and through the original name
+		if src.ty[0] == '{' {
+			fmt.Fprintf(&b, "h.o = %s\n", src.elem)
+		} else {
+			fmt.Fprintf(&b, "h = h + [%s]\n", src.elem)
+		}
+		// read everything back through every name
+		b.WriteString("print h (typeof h) t (typeof t) a (typeof a)\n")
+		b.WriteString("for e := range h\n    print e\nend\nfor e := range t\n    print e\nend\n")
+		if src.ty[0] == '{' {
+			fmt.Fprintf(&b, "for k := range h\n    v := h[k]\n    print k v (v == v)\n    w:any\n    w = v\n    print (typeof w)\nend\n")
+		} else {
+			fmt.Fprintf(&b, "for v := range h\n    print v (v == v)\n    w:any\n    w = v\n    print (typeof w)\nend\n")
+		}
+		if dst.ty[0] == '{' {
+			fmt.Fprintf(&b, "for k := range t\n    v := t[k]\n    print k v (v == v)\n    w:any\n    w = v\n    print (typeof w)\nend\n")
+		} else {
+			fmt.Fprintf(&b, "for v := range t\n    print v (v == v)\n    w:any\n    w = v\n    print (typeof w)\nend\n")
+		}
+		b.WriteString("back := a.(" + src.ty + ")\nprint back (back == h)\n")
 	case 6:
 		// any values holding composites of the same kind but different element
 		// types, of equal length and with shared keys, compared pairwise
